@@ -323,6 +323,12 @@ def run_local(plan, s, res, tr):
         @property
         def value(self):
             if state["outage"]:
+                # the start cannot be read right now (its backing packet has not arrived, its storage failed, ...)
+                kind = state["outage"]
+                if kind == "attribute":
+                    raise AttributeError("'NoneType' object has no attribute 'sequence_start'")
+                if kind == "key":
+                    raise KeyError("sequence_start")
                 raise SimFault("start value unavailable")
             hook, state["on_read"] = state["on_read"], None
             if hook is not None:
@@ -423,17 +429,26 @@ def run_local(plan, s, res, tr):
             n += 1
             start = op[1]
         else:
-            state["outage"] = True
+            state["outage"] = ["fault", "attribute", "key"][(i + plan.get("start_base", 0)) % 3]
+            got = None
             try:
-                seq.next_sequence()
+                got = seq.next_sequence()
                 raised = False
-            except SimFault:
+            except (SimFault, AttributeError, KeyError):
                 raised = True
             finally:
                 state["outage"] = False
             res.count("fault.start_unreadable_during_request")
-            tr.ev("local", "outage", raised)
-            # whether the failed request raised or not, it returned no number: n does not advance
+            tr.ev("local", "outage", raised, got)
+            # a request that raised returned no number: n does not advance.  One that returned a number although the
+            # start in force could not be read has returned the n-th number like any other request
+            if not raised:
+                want = start + n % 10
+                if got != want:
+                    s.fail("sequence-value", "local", f"local history step {i}: request #{n} was answered with {got} while the start in "
+                           f"force ({start}) could not be read; start + ({n} mod 10) = {want}")
+                    return
+                n += 1
 
 
 def execute(plan, env):
